@@ -20,6 +20,7 @@ RULE += " Column order after Date is shuffled in 30% of the datasets; 15% write 
 RULE += ' 30% of the datasets are read through a copy.copy/deepcopy of the source handed to the handler in a tuple.'
 RULE += ' Adjustment ratios include 0.999992 and 1.000004; 5% of the datasets quote whole numbers of a few billion in every price column; 12% start between 1958 and 1969.'
 RULE += ' 30% of the handlers first served another feed and were then re-pointed (handler.data_sources = [...]); a source built on a directory BEFORE its files were rewritten must keep answering from what it read.'
+RULE += ' Round 11: a fifth of the files start with a UTF-8 byte order mark, a fifth have quoted column names; every seventh bar has Volume 0; 40% of the dataset directories have glob characters or a blank in their name.'
 ASSUMPTIONS = [
     'unique dates per file; Close and Adj Close are missing together (otherwise "scaled by adjusted-close/close" has no single reading)',
     'values compared at 1e-12 relative (one division and one multiplication in the adjustment)',
